@@ -531,3 +531,317 @@ Proof.
   destruct Hsub as [sh [Hsh Hs]].
   destruct (map_err_In _ _ _ _ E Hsh) as [ce [Hce Hc]]. exists ce, sh. split; [|split]; assumption.
 Qed.
+
+(** * Part 3 -- T1: with the mode off no cardinality is changed *)
+
+Lemma gen_card_base cfg c : base_card c -> base_card (gen_card cfg c).
+Proof.
+  unfold gen_card. destruct (x_disable_exact cfg); [|tauto].
+  destruct c as [k| | |]; cbn; try tauto. destruct (N.ltb 1 k); tauto.
+Qed.
+
+Lemma nl_stmt_type b i : s_type (nl_stmt b i) = c_NONLITERAL_ELEM_TYPE.
+Proof. reflexivity. Qed.
+
+(** provenance: a selected statement that is neither a disjunction nor the
+    NONLITERAL statement is a candidate (up to comments) *)
+Definition from_list (L : list stmt) (s : stmt) : Prop :=
+  s_choice s = false -> s_type s <> c_NONLITERAL_ELEM_TYPE -> exists b, In b L /\ same_core s b.
+
+Lemma from_list_add L s k : from_list L s -> from_list L (add_comment s k).
+Proof. exact (fun H => H). Qed.
+
+Lemma from_list_nl L b i : from_list L (nl_stmt b i).
+Proof. intros _ H. exfalso. apply H. reflexivity. Qed.
+
+Lemma from_list_ch L d tys : from_list L (ch_stmt d tys).
+Proof. intros H. discriminate H. Qed.
+
+Lemma from_list_self L : Forall (from_list L) L.
+Proof. apply Forall_forall. intros x Hx _ _. exists x. split; [exact Hx | apply same_core_refl]. Qed.
+
+Lemma select_valid_from fa cfg cnt L out :
+  select_valid fa cfg cnt L = inl out -> Forall (from_list L) out.
+Proof.
+  intros H. eapply (select_valid_inv fa cfg (from_list L)); [| | |apply from_list_self|exact H].
+  - intros s k. apply from_list_add.
+  - intros b i _ _. apply from_list_nl.
+  - intros d tys _. apply from_list_ch.
+Qed.
+
+Lemma select_valid_base_card fa cfg cnt L out :
+  Forall (fun s => base_card (s_card s)) L -> select_valid fa cfg cnt L = inl out ->
+  Forall (fun s => base_card (s_card s)) out.
+Proof.
+  intros HL H. eapply (select_valid_inv fa cfg (fun s => base_card (s_card s))); [| | |exact HL|exact H].
+  - intros s k Hs. exact Hs.
+  - intros b i Hb _. cbn. apply most_general_card_base. exact Hb.
+  - intros d tys Hd. exact Hd.
+Qed.
+
+Lemma class_base_card fa cfg thr counts ce b :
+  In b (class_base fa cfg thr counts ce) -> base_card (s_card b).
+Proof.
+  unfold class_base. intros H. apply in_app_or in H. destruct H as [H|H].
+  - apply base_statements_card in H. apply H.
+  - destruct (x_inverse cfg); [|destruct H]. apply base_statements_card in H. apply H.
+Qed.
+
+(** what [class_selected] returns: statements with un-relaxed cardinalities,
+    each (unless a disjunction / NONLITERAL) a candidate of its direction *)
+Lemma class_selected_spec fa cfg thr counts ce sel :
+  class_selected fa cfg thr counts ce = inl sel ->
+  forall v, In v sel ->
+    base_card (s_card v) /\
+    exists inv, from_list (class_dir fa cfg thr counts ce inv) v.
+Proof.
+  unfold class_selected.
+  destruct (select_valid fa cfg _ (class_dir fa cfg thr counts ce false)) as [vd|e] eqn:Ed; [|discriminate].
+  destruct (select_valid fa cfg _ (class_dir fa cfg thr counts ce true)) as [vi|e] eqn:Ei; [|discriminate].
+  intros H v Hv. inversion H; subst. clear H.
+  assert (Hb : forall inv, Forall (fun s => base_card (s_card s)) (class_dir fa cfg thr counts ce inv)).
+  { intros inv. apply Forall_forall. intros x Hx. apply class_dir_In in Hx. eapply class_base_card. apply Hx. }
+  apply in_app_or in Hv. destruct Hv as [Hv|Hv].
+  - split.
+    + pose proof (select_valid_base_card _ _ _ _ _ (Hb false) Ed) as F. rewrite Forall_forall in F. apply F, Hv.
+    + exists false. pose proof (select_valid_from _ _ _ _ _ Ed) as F. rewrite Forall_forall in F. apply F, Hv.
+  - split.
+    + pose proof (select_valid_base_card _ _ _ _ _ (Hb true) Ei) as F. rewrite Forall_forall in F. apply F, Hv.
+    + exists true. pose proof (select_valid_from _ _ _ _ _ Ei) as F. rewrite Forall_forall in F. apply F, Hv.
+Qed.
+
+(** every output statement of the stage is tuned from a selected statement of its class *)
+Lemma shex_stmt_origin fa cfg thr P C shapes sh s :
+  shex fa cfg thr P C = inl shapes -> In sh shapes -> In s (sh_stmts sh) ->
+  exists ce sel v, In ce P /\ sh_class sh = fst ce /\ sh_n sh = class_cnt C ce /\
+                   sh_name sh = shape_name (x_shapes_ns cfg) (fst ce) /\
+                   class_selected fa cfg thr C ce = inl sel /\ In v sel /\
+                   tuned_from fa cfg (class_cnt C ce) v s.
+Proof.
+  intros H Hsh Hs. destruct (shex_spec _ _ _ _ _ _ H sh Hsh) as (ce & sh0 & Hce & Hc & (S1 & S2 & S3 & S4)).
+  rewrite shex_class_eq in Hc.
+  destruct (class_selected fa cfg thr C ce) as [sel|e] eqn:Esel; [|discriminate].
+  destruct (tune fa cfg (class_cnt C ce) sel) as [stmts|e] eqn:Et; [|discriminate].
+  inversion Hc; subst sh0; cbn in *.
+  destruct (tune_spec _ _ _ _ _ Et s (S4 s Hs)) as [v [Hv Ht]].
+  exists ce, sel, v. split; [exact Hce|]. split; [exact S2|]. split; [exact S3|]. split; [exact S1|].
+  split; [exact Esel|]. split; [exact Hv | exact Ht].
+Qed.
+
+(** T1 *)
+Theorem mode_off_keeps_cards fa cfg thr P C shapes :
+  x_all_compliant cfg = false -> shex fa cfg thr P C = inl shapes ->
+  forall sh s, In sh shapes -> In s (sh_stmts sh) ->
+    s_card s <> COpt /\ s_card s <> CStar /\
+    exists ce sel v, In ce P /\ sh_class sh = fst ce /\
+      class_selected fa cfg thr C ce = inl sel /\ In v sel /\
+      s_inv s = s_inv v /\ s_prop s = s_prop v /\ s_types s = s_types v /\ s_choice s = s_choice v /\
+      s_nocc s = s_nocc v /\ s_prob s = s_prob v /\
+      s_card s = gen_card cfg (s_card v) /\ base_card (s_card v) /\
+      (s_choice v = false -> s_type v <> c_NONLITERAL_ELEM_TYPE ->
+       exists b, In b (class_base fa cfg thr C ce) /\ same_core v b).
+Proof.
+  intros Hoff H sh s Hsh Hs.
+  destruct (shex_stmt_origin _ _ _ _ _ _ _ _ H Hsh Hs) as (ce & sel & v & Hce & Hcl & _ & _ & Hsel & Hv & Ht).
+  destruct (class_selected_spec _ _ _ _ _ _ Hsel v Hv) as [Hbase [inv Hfrom]].
+  destruct Ht as (T1 & T2 & T3 & T4 & T5 & [(Hon & _) | (_ & Hc & Hp)]); [congruence|].
+  assert (Hbs : base_card (s_card s)) by (rewrite Hc; apply gen_card_base; exact Hbase).
+  split; [intros E; rewrite E in Hbs; exact Hbs|]. split; [intros E; rewrite E in Hbs; exact Hbs|].
+  exists ce, sel, v. repeat split; try assumption.
+  intros Hch Hty. destruct (Hfrom Hch Hty) as [b [Hb Hcore]]. exists b. split; [|exact Hcore].
+  apply class_dir_In in Hb. apply Hb.
+Qed.
+
+(** * Part 4 -- which candidate the first merge keeps (towards T2 / T3) *)
+
+Lemma same_tokens_eq a b : same_tokens a b = true <-> s_prop a = s_prop b /\ s_type a = s_type b.
+Proof. unfold same_tokens. rewrite andb_true_iff, !str_eqb_eq. tauto. Qed.
+
+Lemma same_tokens_refl a : same_tokens a a = true.
+Proof. apply same_tokens_eq. split; reflexivity. Qed.
+
+Lemma same_tokens_sym a b : same_tokens a b = same_tokens b a.
+Proof.
+  destruct (same_tokens a b) eqn:E1, (same_tokens b a) eqn:E2; try reflexivity.
+  - apply same_tokens_eq in E1. assert (same_tokens b a = true) by (apply same_tokens_eq; intuition). congruence.
+  - apply same_tokens_eq in E2. assert (same_tokens a b = true) by (apply same_tokens_eq; intuition). congruence.
+Qed.
+
+Lemma same_tokens_trans a b c : same_tokens a b = true -> same_tokens b c = true -> same_tokens a c = true.
+Proof. rewrite !same_tokens_eq. intuition congruence. Qed.
+
+Lemma same_core_tokens a b : same_core a b -> same_tokens a b = true.
+Proof. intros H. apply same_tokens_eq. split; [apply H | apply same_core_type; exact H]. Qed.
+
+Lemma filter_filter_sub {A} (f g : A -> bool) l :
+  (forall x, f x = true -> g x = true) -> filter f (filter g l) = filter f l.
+Proof.
+  intros H. induction l as [|x l IH]; cbn; [reflexivity|].
+  destruct (g x) eqn:Eg; cbn.
+  - rewrite IH. reflexivity.
+  - destruct (f x) eqn:Ef; [|exact IH]. rewrite (H x Ef) in Eg. discriminate.
+Qed.
+
+Lemma filter_length_le {A} (f : A -> bool) l : List.length (filter f l) <= List.length l.
+Proof. induction l as [|x l IH]; cbn; [lia|]. destruct (f x); cbn; lia. Qed.
+
+Section Sharp.
+  Variable fa : FreqAlg.
+  Variable cfg : scfg.
+
+  (** every result of the first merge is the decision for the whole token
+      group of some candidate *)
+  Lemma group_same_spec cnt : forall fuel l rs,
+    List.length l <= fuel -> group_same fa cfg fuel cnt l = inl rs ->
+    forall r, In r rs -> exists a, In a l /\
+      ((filter (same_tokens a) l = [a] /\ r = a) \/
+       ((exists x y g', filter (same_tokens a) l = x :: y :: g') /\
+        decide_best fa cfg cnt (filter (same_tokens a) l) = inl r)).
+  Proof.
+    induction fuel as [|f IH]; intros l rs Hlen H r Hr.
+    - destruct l; [|cbn in Hlen; lia]. cbn in H. inversion H; subst. destruct Hr.
+    - destruct l as [|a rest]; cbn in H; [inversion H; subst; destruct Hr|].
+      match type of H with match ?p with _ => _ end = _ => destruct p as [r0|e] eqn:E0 end; [|discriminate].
+      destruct (group_same fa cfg f cnt _) as [rs'|e] eqn:E1; [|discriminate].
+      inversion H; subst. clear H. destruct Hr as [<-|Hr].
+      + exists a. split; [left; reflexivity|]. cbn [filter]. rewrite same_tokens_refl.
+        destruct (filter (same_tokens a) rest) as [|b grp] eqn:Eg.
+        * left. inversion E0; subst. split; reflexivity.
+        * right. split; [exists a, b, grp; reflexivity | exact E0].
+      + assert (Hlen' : List.length (filter (fun b => negb (same_tokens a b)) rest) <= f).
+        { pose proof (filter_length_le (fun b => negb (same_tokens a b)) rest). cbn in Hlen. lia. }
+        destruct (IH _ _ Hlen' E1 r Hr) as [a' [Ha' Hspec]].
+        apply filter_In in Ha'. destruct Ha' as [Ha'rest Hneq]. apply negb_true_iff in Hneq.
+        exists a'. split; [right; exact Ha'rest|].
+        assert (Heq : filter (same_tokens a') (a :: rest) =
+                      filter (same_tokens a') (filter (fun b => negb (same_tokens a b)) rest)).
+        { cbn [filter]. rewrite same_tokens_sym, Hneq. symmetry. apply filter_filter_sub.
+          intros x Hx. apply negb_true_iff. destruct (same_tokens a x) eqn:Eax; [|reflexivity].
+          rewrite same_tokens_sym in Hx. rewrite (same_tokens_trans _ _ _ Eax Hx) in Hneq. discriminate. }
+        rewrite Heq. exact Hspec.
+  Qed.
+
+  Lemma add_comments_of_core l dom r : add_comments_of cfg dom l = inl r -> same_core r dom.
+  Proof.
+    intros H. eapply (add_comments_of_inv cfg (fun s => same_core s dom)); [| |exact H].
+    - intros s k Hs. exact Hs.
+    - apply same_core_refl.
+  Qed.
+
+  Lemma useless_spec cnt g : useless_plus_group fa cnt g = true ->
+    exists a b, g = [a; b] /\ feqb fa (pv fa cnt a) (pv fa cnt b) = true /\
+                xorb (is_plus (s_card a)) (is_plus (s_card b)) = true.
+  Proof.
+    unfold useless_plus_group. destruct g as [|a [|b [|c g]]]; try discriminate.
+    intros H. apply andb_true_iff in H. destruct H as [H1 H2]. exists a, b. split; [reflexivity|]. split; [exact H1|].
+    unfold count_plus in H2. cbn in H2. destruct (is_plus (s_card a)), (is_plus (s_card b)); cbn in *; congruence.
+  Qed.
+
+  (** with [keep_less_specific]: the kept candidate is a '+', or the group has
+      no '+', or it is the exact one of a "useless positive closure" pair *)
+  Lemma decide_best_kls cnt g r :
+    x_keep_less_specific cfg = true -> decide_best fa cfg cnt g = inl r ->
+    exists res, In res g /\ same_core r res /\
+      (is_plus (s_card res) = true
+       \/ (forall x, In x g -> is_plus (s_card x) = false)
+       \/ (x_discard_useless cfg = true /\ exists o, g = [res; o] \/ g = [o; res]) /\
+          exists o, In o g /\ is_plus (s_card o) = true /\ is_plus (s_card res) = false /\
+             (feqb fa (pv fa cnt res) (pv fa cnt o) = true \/ feqb fa (pv fa cnt o) (pv fa cnt res) = true)).
+  Proof.
+    intros Hk. unfold decide_best. destruct (x_discard_useless cfg && useless_plus_group fa cnt g) eqn:Eu.
+    - apply andb_true_iff in Eu. destruct Eu as [Ed Eu]. apply useless_spec in Eu.
+      destruct Eu as (a & b & -> & Hf & Hx). unfold first_such. cbn.
+      destruct (is_plus (s_card a)) eqn:Ea; cbn.
+      + destruct (is_plus (s_card b)) eqn:Eb; cbn; [discriminate Hx|].
+        intros H; inversion H; subst. exists r. split; [right; left; reflexivity|]. split; [apply same_core_refl|].
+        right. right. split; [split; [exact Ed | exists a; right; reflexivity]|].
+        exists a. repeat split; try assumption; [left; reflexivity | right; exact Hf].
+      + intros H; inversion H; subst. exists r. split; [left; reflexivity|]. split; [apply same_core_refl|].
+        right. right. split; [split; [exact Ed | exists b; left; reflexivity]|].
+        destruct (is_plus (s_card b)) eqn:Eb; [|discriminate Hx].
+        exists b. repeat split; try assumption; [right; left; reflexivity | left; exact Hf].
+    - rewrite Hk. set (gs := sort_desc fa cnt g). unfold first_such.
+      destruct (List.find (fun s => is_plus (s_card s)) gs) as [s|] eqn:E1.
+      + intros H. apply add_comments_of_core in H. apply find_some in E1. destruct E1 as [Hin Hp].
+        exists s. split; [apply (In_sort_desc fa cnt); exact Hin|]. split; [exact H|]. left. exact Hp.
+      + destruct (hd_error gs) as [h|] eqn:Eh; [|discriminate].
+        intros H. apply add_comments_of_core in H.
+        assert (Hh : In h gs) by (destruct gs; cbn in Eh; [discriminate | inversion Eh; left; reflexivity]).
+        exists h. split; [apply (In_sort_desc fa cnt); exact Hh|]. split; [exact H|]. right. left.
+        intros x Hx. apply (In_sort_desc fa cnt) in Hx.
+        pose proof (find_none _ _ E1 x Hx) as Hn. exact Hn.
+  Qed.
+End Sharp.
+
+(** every non-'+' candidate of an ordinary property has a '+' sibling *)
+Definition plus_present (tau : str) (L : list stmt) : Prop :=
+  forall b, In b L -> s_prop b <> tau -> is_plus (s_card b) = false ->
+            exists b', In b' L /\ same_tokens b b' = true /\ is_plus (s_card b') = true.
+
+Section Selected.
+  Variable fa : FreqAlg.
+  Variable cfg : scfg.
+
+  (** a selected statement that is not a '+' (nor a disjunction / NONLITERAL):
+      instantiation property, or the exact half of a useless-'+' pair *)
+  Lemma selected_not_plus cnt L out v :
+    x_keep_less_specific cfg = true -> plus_present (x_tau cfg) L ->
+    select_valid fa cfg cnt L = inl out -> In v out ->
+    s_choice v = false -> s_type v <> c_NONLITERAL_ELEM_TYPE -> is_plus (s_card v) = false ->
+    s_prop v = x_tau cfg \/
+    (x_discard_useless cfg = true /\
+     exists a b, In a L /\ In b L /\ same_core v a /\ same_tokens a b = true /\ is_plus (s_card b) = true /\
+                 (filter (same_tokens a) L = [a; b] \/ filter (same_tokens a) L = [b; a]) /\
+                 (feqb fa (pv fa cnt a) (pv fa cnt b) = true \/ feqb fa (pv fa cnt b) (pv fa cnt a) = true)).
+  Proof.
+    intros Hk Hpp Hsel Hv Hch Hty Hnp.
+    unfold select_valid in Hsel. destruct L as [|a0 L0]; [inversion Hsel; subst; destruct Hv|].
+    set (L := a0 :: L0) in *.
+    destruct (group_same fa cfg (List.length L) cnt L) as [l1|e] eqn:E1; [|discriminate].
+    assert (Hfrom : Forall (from_list l1) out).
+    { eapply (group_nodes_inv fa cfg (from_list l1)); [| | |apply from_list_self|exact Hsel].
+      - intros s k. apply from_list_add.
+      - intros b i _ _. apply from_list_nl.
+      - intros d tys _. apply from_list_ch. }
+    rewrite Forall_forall in Hfrom. destruct (Hfrom v Hv Hch Hty) as [r [Hr Hcore]].
+    destruct (group_same_spec fa cfg cnt _ _ _ (le_n _) E1 r Hr) as [a [Ha Hspec]].
+    assert (Hgrp : forall x, In x (filter (same_tokens a) L) -> In x L /\ same_tokens a x = true)
+      by (intros x Hx; apply filter_In in Hx; exact Hx).
+    assert (Hno : forall res, In res (filter (same_tokens a) L) -> same_core v res ->
+                  (forall x, In x (filter (same_tokens a) L) -> is_plus (s_card x) = false) ->
+                  s_prop v = x_tau cfg).
+    { intros res Hres Hc Hall.
+      destruct (str_eq_dec (s_prop v) (x_tau cfg)) as [E|E]; [exact E|exfalso].
+      destruct (Hgrp res Hres) as [HresL Hares].
+      assert (Hpres : s_prop res <> x_tau cfg) by (destruct Hc as (_ & Hp & _); congruence).
+      destruct (Hpp res HresL Hpres (Hall res Hres)) as [b' [Hb' [Htok Hplus]]].
+      assert (Hin : In b' (filter (same_tokens a) L)).
+      { apply filter_In. split; [exact Hb'|]. eapply same_tokens_trans; eassumption. }
+      rewrite (Hall b' Hin) in Hplus. discriminate. }
+    destruct Hspec as [[Hsing ->] | [_ Hdec]].
+    - left. apply (Hno a).
+      + rewrite Hsing. left. reflexivity.
+      + exact Hcore.
+      + intros x Hx. rewrite Hsing in Hx. destruct Hx as [<-|[]].
+        destruct Hcore as (_ & _ & _ & _ & Hc & _). rewrite <- Hc. exact Hnp.
+    - destruct (decide_best_kls fa cfg cnt _ _ Hk Hdec) as [res [Hres [Hc [Hp | [Hall | [[Hd Hshape] Hu]]]]]].
+      + exfalso. destruct Hcore as (_ & _ & _ & _ & C1 & _). destruct Hc as (_ & _ & _ & _ & C2 & _).
+        rewrite C1, C2, Hp in Hnp. discriminate.
+      + left. apply (Hno res Hres); [eapply same_core_trans; eassumption | exact Hall].
+      + right. split; [exact Hd|]. destruct Hu as [o [Ho [Hop [Hrp Hf]]]].
+        destruct (Hgrp res Hres) as [HresL Hares]. destruct (Hgrp o Ho) as [HoL Hao].
+        assert (Hro : same_tokens res o = true).
+        { eapply same_tokens_trans; [|exact Hao]. rewrite same_tokens_sym. exact Hares. }
+        assert (Hfil : filter (same_tokens res) L = filter (same_tokens a) L).
+        { apply filter_ext_eq. intros x. destruct (same_tokens a x) eqn:Eax.
+          - eapply same_tokens_trans; [|exact Eax]. rewrite same_tokens_sym. exact Hares.
+          - destruct (same_tokens res x) eqn:Erx; [|reflexivity].
+            rewrite (same_tokens_trans _ _ _ Hares Erx) in Eax. discriminate. }
+        exists res, o. split; [exact HresL|]. split; [exact HoL|].
+        split; [eapply same_core_trans; eassumption|]. split; [exact Hro|]. split; [exact Hop|].
+        split; [|exact Hf]. rewrite Hfil.
+        destruct Hshape as [o' [Hs|Hs]]; rewrite Hs in Ho, Hres |- *.
+        * left. destruct Ho as [<-|[<-|[]]]; [rewrite Hop in Hrp; discriminate | reflexivity].
+        * right. destruct Ho as [<-|[<-|[]]]; [reflexivity | rewrite Hop in Hrp; discriminate].
+  Qed.
+End Selected.
